@@ -2,6 +2,7 @@
 import common as C
 from props._runcommon import RUN_TRUSTED, RUN_ASSUMPTIONS, PropRunStream
 from run import selftest as W
+from run import witnesses2 as W2
 
 PROPERTY = "C01"
 LEAN_MODULES = ["LccModel.Props.C01", "LccModel.Props.C01Graph", "LccModel.Props.C01Run"]
@@ -40,7 +41,7 @@ class Run(PropRunStream):
     oracles = ("C01",)
     quick_cases = 270
     quick_seconds = 45
-    corpus = [witness("D1 "), witness("D3 ")]
+    corpus = [witness("D1 "), witness("D3 ")] + W2.CONTROLS
 
 
 class RunPT(PropRunStream):
